@@ -50,7 +50,7 @@ impl C12 {
     pub fn new(tier: Tier) -> C12 {
         let mut sets = Vec::new();
         for l in LANGS {
-            sets.push((l, "stores<=5 over 4 (title,rating) pairs with duplicates".to_string(), menu4(l), tier.pick(5, 6), false));
+            sets.push((l, "stores<=5 over 4 (title,rating) pairs with duplicates".to_string(), menu4(l), tier.pick(5, 7), false));
             sets.push((l, "stores<=3 over 10 pairs (raw vs normalised order)".to_string(), menu10(l), tier.pick(3, 4), false));
             sets.push((l, "stores<=4 over 4 titles, pairwise distinct ratings".to_string(), menu4(l), tier.pick(4, 5), true));
         }
@@ -217,7 +217,7 @@ impl Prop for C12 {
         let mut d: Vec<Dom> = self.sets.iter().map(|(l, name, menu, n, _)| Dom::new(format!("{}/{}", l.tag(), name), seqs_len(menu.len() as u64, 0, *n), 60)).collect();
         d.push(Dom::new("histories", LANGS.len() as u64, 1).budget(self.tier.pick(120, 1800)).note(format!(
             "BFS to depth {} over {{search(\"\"), search(\" \"), add x4, limit x4}} per language, merged by the canonical store key; every search transition checked against the list model",
-            self.tier.pick(6, 8)
+            self.tier.pick(6, 9)
         )));
         d
     }
@@ -225,7 +225,7 @@ impl Prop for C12 {
         if dom == self.sets.len() {
             let l = LANGS[idx as usize];
             let sys = HistSys { l, menu: menu4(l) };
-            let out = bfs(&sys, cx, "hist_", vec![vec![]], self.tier.pick(6, 8), true, Duration::from_secs(self.tier.pick(100, 1500)), None);
+            let out = bfs(&sys, cx, "hist_", vec![vec![]], self.tier.pick(6, 9), true, Duration::from_secs(self.tier.pick(100, 1500)), None);
             cx.class(&format!("bfs:depth{}", out.depth_completed));
             return;
         }
